@@ -85,6 +85,11 @@ impl ValidationContext {
     }
 
     fn validate_story(&self, story: &ParsedStory) -> Result<(), CompilerError> {
+        // Initial values of globals are expressions like any other
+        for global in story.globals() {
+            self.validate_expr_function_calls(&global.initial_value)?;
+        }
+
         // Validate root nodes
         let empty_params = BTreeSet::new();
         self.validate_temp_names(story.root(), &empty_params)?;
